@@ -9,6 +9,17 @@ PROP = "C05"
 def run(tier: str, seed: int) -> int:
     n = K.N_QUICK if tier == "quick" else K.N_THOROUGH
     cases = gen_cases(PROP, n, seed, K.MONITORS, K.features, **K.COMMON)
+    # the stagnation regime: no tolerance stops the run, so the last iterations move the point by a few units in the last
+    # place — where a memo keyed on "almost the same point" would serve the neighbour's value
+    import random
+    for i in range(n // 10):
+        s = seed * 1_000_003 + 700_000 + i
+        r = random.Random(s)
+        cases.append({"seed": s, "monitors": ["C05"], "families": ["qp", "qp_quartic"], "box": r.choice(["none", "none", "mixed"]),
+                      "n": r.randint(1, 6),
+                      "features": {"jac": "callable", "callback": r.choice(["none", "false"]), "ftarget": "none", "gtol_callable": False,
+                                   "scaler": "none", "update": "none"},
+                      "override": {"maxiter": 300, "maxfun": 15000, "ftol": 0.0, "gtol": 0.0, "maxls": 20}})
     return run_property(PROP, "harness.props.c05", K.THEOREMS, K.MODULES, cases, tier, seed,
                         rule=K.RULE, assumptions=K.ASSUMPTIONS)
 
